@@ -16,7 +16,8 @@ CFG = {'long_max_vertices': 200,   # the exact oracle is quadratic in the vertex
  'count': {'quick': 150000, 'thorough': 5000000},
  'lean_files': ['GeoModel/Simplify.lean', 'GeoModel/Ops/C09.lean', 'GeoProofs/Lemmas/C09Rdp.lean', 'GeoProofs/Lemmas/C09Vw.lean',
                 'GeoProofs/Lemmas/C09PHeap.lean', 'GeoProofs/Lemmas/C09PExit.lean',
-                'GeoProofs/Lemmas/C09PExitP.lean'],
+                'GeoProofs/Lemmas/C09PExitP.lean', 'GeoProofs/Lemmas/C09XGlobal.lean',
+                'GeoProofs/Lemmas/C09XTrace.lean'],
  'rule': 'random LineString / MultiLineString / Polygon / MultiPolygon (0-28 vertices per component; random grid '
          'points, zig-zags, collinear runs with bumps, back-tracking walks, forced repeats, wide 2^20 coordinates; '
          'closed line strings; rings at the 4-coordinate limit, open rings closed by the constructor) x '
@@ -54,7 +55,14 @@ MANIFEST = {'note': 'Trusted: Lean 4.33 kernel (axioms propext, Classical.choice
          'output. The analogous statement holds for simplify_vw_preserve (vwp_exit_invariant): when its output has more '
          'than INITIAL_MIN and more than MIN_POINTS coordinates (otherwise the loop may have stopped on one of its two '
          'size rules) every three consecutive retained vertices span a triangle of area > eps, entries demoted to -eps '
-         'included. '
+         'included. Global guarantees (C09X): every input vertex is kept or lies within eps of a segment between two '
+         'consecutive output vertices of simplify (rdp_global_bound; rdp_global_bound_polyline with the kept vertices '
+         'folded in) - the guarantee against the whole output polyline, not only against the replacing segment; and the '
+         'removal trace of Visvalingam-Whyatt (vw_removal_trace, vw_first_removal): the kept positions are what a '
+         'sequence of removals leaves of the adjacency list, and at every removal, in the state at that time, the popped '
+         'entry names the current neighbours of a live vertex, its area is the exact area of that triangle, is at most '
+         'eps, and is minimal among the current triangles of all live interior vertices (heap order respected; stale '
+         'entries are skipped and never remove anything). '
          'The model (state-passing compute_rdp, the adjacency list, a '
          'mirrored BinaryHeap, the segment multiset standing for the R-tree) is compared exactly (vertex lists and '
          "index lists) with the real API on random inputs; the property clauses are also evaluated on the "
